@@ -67,19 +67,19 @@ cfg("MC_pause_2l", 1, 1, 2, [2], 2, cmds=1, errs=1, edges=True)
 cfg("LIVE_C03", 1, 1, 1, [], 2, spec="FairSpec", props="C03_Live", invs="")
 cfg("LIVE_C03_w2", 2, 1, 1, [], 3, spec="FairSpec", props="C03_Live", invs="")
 # ---- NEG configs: (name, expected violated) --------------------------------------------------------
-cfg("NEG_WakeAtLimit", 1, 1, 1, [], 2, wake=1)                       # as found: C03_NoLostWake
-cfg("NEG_WakeAtLimit_l2", 1, 2, 1, [], 3, wake=2)
-cfg("NEG_WakeAtLimit_w2", 2, 2, 1, [], 5, wake=2)
+cfg("NEG_WakeAtLimit", 1, 1, 1, [], 2, wake=1, invs="C03_NoLostWake")                       # as found: C03_NoLostWake
+cfg("NEG_WakeAtLimit_l2", 1, 2, 1, [], 3, wake=2, invs="C03_NoLostWake")
+cfg("NEG_WakeAtLimit_w2", 2, 2, 1, [], 5, wake=2, invs="C03_NoLostWake")
 cfg("NEG_LIVE_WakeAtLimit", 1, 1, 1, [], 2, wake=1, spec="FairSpec", props="C03_Live", invs="")
 cfg("NEG_IgnoreUnknownIdx_2f", 2, 1, 1, [], 4, faults=2, flip=["IgnoreUnknownIdx"])
 cfg("NEG_IgnoreUnknownIdx_2f_panic_only", 2, 1, 1, [], 4, faults=2, flip=["IgnoreUnknownIdx"], invs="C08_NoPanic", props="")
 cfg("NEG_IgnoreUnknownIdx_spin_only", 3, 1, 1, [], 4, faults=2, flip=["IgnoreUnknownIdx"], invs="C08_NoSpin", props="")
 cfg("NEG_UnlinkOnDeregister", 1, 1, 2, [2], 2, cmds=2, flip=["UnlinkOnDeregister"])
 cfg("NEG_NoClearOnLimit", 2, 1, 1, [], 3, flip=["NoClearOnLimit"])
-cfg("NEG_BackoffNeverReregisters", 1, 1, 1, [], 2, errs=1, flip=["BackoffNeverReregisters"])
+cfg("NEG_BackoffNeverReregisters", 1, 1, 1, [], 2, errs=1, flip=["BackoffNeverReregisters"], invs="C03_NoLostWake")
 cfg("NEG_RoundRobinStuck", 2, 2, 1, [], 3, flip=["RoundRobinStuck"])
 cfg("NEG_ConnErrIsFatal", 1, 1, 1, [], 2, errs=1, flip=["ConnErrIsFatal"])
-cfg("NEG_WakeSkipsAcceptAll", 1, 1, 1, [], 2, flip=["WakeSkipsAcceptAll"])
+cfg("NEG_WakeSkipsAcceptAll", 1, 1, 1, [], 2, flip=["WakeSkipsAcceptAll"], invs="C03_NoLostWake")
 cfg("NEG_PauseKeepsRegistered", 1, 1, 1, [], 2, cmds=2, flip=["PauseKeepsRegistered"])
 cfg("NEG_ResumeClearsBackoff", 1, 1, 1, [], 2, cmds=3, errs=1, flip=["ResumeClearsBackoff"], invs="", props="Steps")
 print("configs written")
